@@ -14,7 +14,10 @@ def write_cfg(path, consts, spec, invariants=(), view=None, constraint=None, ext
     with open(path, "w") as f:
         f.write("CONSTANTS\n")
         for k, v in consts.items():
-            f.write("  %s = %s\n" % (k, v))
+            if str(v).startswith("<-"):
+                f.write("  %s %s\n" % (k, v))
+            else:
+                f.write("  %s = %s\n" % (k, v))
         f.write("SPECIFICATION %s\n" % spec)
         if view:
             f.write("VIEW %s\n" % view)
